@@ -691,7 +691,7 @@ func main() {
 	}
 	repo, out := os.Args[1], os.Args[2]
 	header := "(* GENERATED by tools/genmw from middleware.go on every run -- do not edit. *)\n" +
-		"Require Import Base.Bytes Gen.Tables Model.Util Model.Headers Model.Methods Model.Origins Model.Pattern Model.Radix Model.Config Model.Serve Model.MwRt.\nOpen Scope bool_scope.\n\n"
+		"Require Import Base.Bytes Gen.Tables Model.Util Model.Headers Model.Methods Model.Origins Model.Pattern Model.Radix Model.Config Model.CfgRt Model.Serve Model.MwRt.\nOpen Scope bool_scope.\n\n"
 	var sb strings.Builder
 	sb.WriteString(header)
 	errMsg := ""
